@@ -7,6 +7,7 @@ package main
 import (
 	"bytes"
 	"context"
+	"errors"
 	"fmt"
 	"math/rand"
 	"time"
@@ -122,9 +123,12 @@ func init() {
 			w := tr2.writeList()[0]
 			cancel2()
 			select {
-			case <-rerr:
-			case <-time.After(5 * time.Second):
-				r.Props = append(r.Props, viol("C11", "call-never-returned", "Retry did not return on cancel"))
+			case e2 := <-rerr:
+				if e2 == nil || !errors.Is(e2, context.Canceled) {
+					r.Props = append(r.Props, viol("C11", "cancel-wrong-error", "%s/%s: Retry returned %v when its own context was cancelled", kind, cause, e2))
+				}
+			case <-time.After(3 * time.Second):
+				r.Props = append(r.Props, viol("C11", "call-never-returned", "%s/%s: Retry did not return when its context was cancelled", kind, cause))
 			}
 			tr2.Close()
 			tr1.Close()
